@@ -29,7 +29,8 @@ RULE = ('three lock-step case kinds. single: histories over Req/OpenPool/Start/C
         'SingletonPoolSink with a mock provider (exhaustive over a 13-label alphabet to depth 3 (quick) / 4 (thorough) and over its 9 core labels to depth 4 / 5, '
         'scenario templates with k = 1..6 concurrent first requests resumed in every rotation/reversal, seeded random '
         'histories of 4..40 labels incl. create failures, faults of old sinks, resumes of unknown/blocked tasks); '
-        'ref: every Open/Close sequence up to length 9 (quick) / 12 (thorough) on the real RefCountedSink plus random '
+        'ref: every Open/Close sequence up to length 9 (quick) / 12 (thorough) and every Open/Close/Fault sequence (underlying sink '
+        'reports Closed while holders are alive) up to length 7 / 9 on the real RefCountedSink plus random '
         'histories with 3 holders, requests and groups of calls issued concurrently against an underlying sink whose '
         'Open/Close yield; shared: random Create/DropHolder histories over 3 keys and falsy keys on the real '
         'SharedSinkProvider with explicit holder references and gc.collect(), with the underlying sink of a held key faulting / being closed / '
@@ -448,6 +449,7 @@ def run_ref(case):
   w = World()
   w.yielding = bool(case.get('yield'))
   under = _S['RecSink'](w)
+  under.track = True       # the mock reports Open after Open(), Closed after Close() or a fault
   rc = _S['RefCountedSink'](under)
   term = _S['Terminal'](w)
   ops = case['ops']
@@ -472,6 +474,12 @@ def run_ref(case):
       stack = _S['ClientMessageSinkStack']()
       stack.Push(term, op[1])
       rc.AsyncProcessRequest(stack, _S['MethodCallMessage'](None, 'm', (op[1],), {}), None, None)
+    elif op[0] == 'renv':
+      # environment: the underlying connection now reports this state (4 = Closed: it faulted) whoever holds it
+      under.st = int(op[1])
+      if op[2:] == ['fault']:
+        under.on_faulted.Set(Exception('fault'))
+        g.sleep(0)
     else:
       raise ValueError(op[0])
 
@@ -685,6 +693,8 @@ def _rand_ref(r):
     x = r.random()
     if x < 0.12:
       ops.append(['rreq', r.randrange(0, 50)])
+    elif x < 0.26:
+      ops.append(['renv', r.choice([4, 4, 4, 1, 2, 3])] + (['fault'] if r.random() < 0.5 else []))
     elif r.random() < bias:
       ops.append(['ropen', r.randrange(0, 3)])
     else:
@@ -748,6 +758,11 @@ def gen_cases(tier, seed):
   for d in range(1, (9 if quick else 12) + 1):
     for j, combo in enumerate(itertools.product((0, 1), repeat=d)):
       out.append({'kind': 'ref', 'ops': [['ropen' if b == 0 else 'rclose', (j + i) % 3] for i, b in enumerate(combo)]})
+  # ... and with the underlying connection failing (state Closed) at any point of the history
+  for d in range(2, (7 if quick else 9) + 1):
+    for j, combo in enumerate(itertools.product((0, 1, 2), repeat=d)):
+      if 2 in combo:
+        out.append({'kind': 'ref', 'ops': [[['ropen', (j + i) % 3], ['rclose', (j + i) % 3], ['renv', 4, 'fault']][b] for i, b in enumerate(combo)]})
   n = 1000 if quick else 12000
   for i in range(n):
     r = C.case_rng(seed, PID, i)
@@ -874,6 +889,9 @@ def _mon_ref(case, obs):
     elif op[0] == 'rreq':
       if evs != [['ufwd', op[1]]]:
         v.append(('request-not-forwarded', 'op %d %s: %s' % (i, op, evs)))
+    elif op[0] == 'renv':
+      if evs:
+        v.append(('unexpected-underlying-call', 'op %d %s (environment only): %s' % (i, op, evs)))
     if not (closes <= opens <= closes + 1):
       v.append(('open-close-unbalanced', 'op %d: %d underlying opens, %d closes' % (i, opens, closes)))
     if (n > 0) != (opens == closes + 1):
@@ -975,7 +993,7 @@ def to_coq(case, obs):
     return 'CSingle %s %s' % (ops, exp)
   if k == 'ref':
     def lab(o):
-      return {'ropen': 'ROpen', 'rclose': 'RClose', 'rreq': 'RReq'}[o[0]] + ' ' + C.zlit(o[1])
+      return {'ropen': 'ROpen', 'rclose': 'RClose', 'rreq': 'RReq', 'renv': 'REnv'}[o[0]] + ' ' + C.zlit(o[1])
 
     def ev(e):
       if e[0] == 'uopen':
@@ -1032,7 +1050,7 @@ def stats(cases, obs):
                       'resume_open_result', 'resume_blocked_or_unknown', 'close_underlying', 'close_counted_only',
                       'fault_propagated', 'fault_unsubscribed_or_noop', 'opendone_ok', 'opendone_noop'], 0)
   maxwait = 0
-  ref = dict.fromkeys(['open_first', 'open_shared', 'close_last', 'close_not_last', 'close_surplus', 'request',
+  ref = dict.fromkeys(['open_first', 'open_shared', 'close_last', 'close_not_last', 'close_surplus', 'request', 'env_closed_while_held', 'env_other', 'last_close_after_fault',
                        'concurrent_groups', 'yielding_cases'], 0)
   sh = dict.fromkeys(['create_hit', 'create_miss', 'create_falsy_key', 'recreate_after_all_holders_dropped', 'drop', 'drop_unknown', 'env_closed', 'env_other_state', 'create_hit_while_underlying_closed',
                       'gc_cases'], 0)
@@ -1088,7 +1106,9 @@ def stats(cases, obs):
         prev = s['sinks']
     elif c['kind'] == 'ref':
       n = 0
+      dead = False
       for op in c['ops']:
+        was = n
         if op[0] == 'ropen':
           n += 1
           ref['open_first' if n == 1 else 'open_shared'] += 1
@@ -1098,8 +1118,15 @@ def stats(cases, obs):
           else:
             n -= 1
             ref['close_last' if n == 0 else 'close_not_last'] += 1
+        elif op[0] == 'renv':
+          ref['env_closed_while_held' if (op[1] == 4 and n > 0) else 'env_other'] += 1
+          dead = op[1] == 4
         else:
           ref['request'] += 1
+        if op[0] == 'rclose' and dead and n == 0 and was > 0:
+          ref['last_close_after_fault'] += 1
+        if op[0] == 'ropen' and n == 1:
+          dead = False
       ref['concurrent_groups'] += sum(1 for z in o['sizes'] if z > 1)
       ref['yielding_cases'] += 1 if c.get('yield') else 0
     else:
